@@ -111,8 +111,8 @@ class SB:
         if kind == "verbatim":
             body = self.pick(["{{ raw }}", "{% if x %}", "plain", "{# c #}", '{% t "q" %}', "{{ a }}{% endverbatimx %}"])
             if self.chance(40):
-                name = self.pick(["vb", "blk", "x1"])
-                return self.tag("verbatim", name) + body + self.tag("endverbatim", name)
+                name = self.pick(["vb", "blk", "x1", '"lbl"', "'q l'", '"a b"'])  # incl. quoted labels
+                return self.tag("verbatim", name) + body + "{% endverbatim " + name + " %}"
             return self.tag("verbatim") + body + self.tag("endverbatim")
         if kind == "cycle":
             vals = [self.pick(QUOTED + VARS_STR) for _ in range(self.draw(st.integers(1, 3)))]
@@ -206,5 +206,10 @@ def stock_cases(draw):
             if sb.chance(65):
                 child += sb.tag("block", b) + ("{{ block.super }}" if sb.chance(45) else "") + sb3.nodes(1, n_max=3) + ("{{ block.super }}" if sb.chance(15) else "") + sb.tag("endblock") + "\n"
         files["main.html"] = child
+    if draw(st.integers(0, 99)) < 8:
+        # a compile-time error somewhere after the generated content: stock Django and the patched Template must report
+        # the same error, incl. the line number in the message / template_debug
+        victim = draw(st.sampled_from(sorted(files)))
+        files[victim] += draw(st.sampled_from(["\n{% nosuchtag %}", "{% if a %}unclosed", "\n\n{% endfor %}", "{{ a|nosuchfilter }}", "\n{% for x in %}"]))
     ctx = {k: draw(st.sampled_from(v)) for k, v in CTX_VALUES.items() if draw(st.integers(0, 9)) < 8}
     return {"files": dict(files), "main": "main.html", "ctx": ctx, "debug": draw(st.booleans())}
